@@ -121,7 +121,8 @@ def encode_command_string(bcp_command, **kwargs) -> str:
     kwarg_string = kwarg_string[:-1]
 
     if json_needed:
-        kwarg_string = 'json={}'.format(json.dumps(kwargs, cls=MpfJSONEncoder))
+        # "&" only occurs inside json strings; escape it so that no text can imitate the "&bytes=" marker
+        kwarg_string = 'json={}'.format(json.dumps(kwargs, cls=MpfJSONEncoder).replace('&', '\\u0026'))
 
     return str(urlunparse(('', '', bcp_command, '', kwarg_string, '')))
 
